@@ -44,6 +44,7 @@ def main():
     rca, oa = sh("git -C /repo apply --3way %s" % patch)
     if rca != 0:
         res["apply_repo"] = oa[-500:]
+        sh("git -C /repo reset -q && git -C /repo checkout -- .")
     else:
         keep = {}
         for p in props:
